@@ -50,6 +50,7 @@ struct ApiCfg {
 
 struct RCif { cif_tp *cif = NULL; MCif model; int iter = -1; };
 struct HCont { cif_container_tp *h = NULL; int cif = 0; uint64_t uid = 0; };
+struct Zombie { cif_container_tp *h = NULL; int cif = 0; };     // a second handle on a container that was destroyed through another handle
 struct HLoop { cif_loop_tp *h = NULL; int cif = 0; uint64_t cont_uid = 0, loop_uid = 0; int via = -1; bool locked = false; bool cached_has_cat = false; ustr cached_cat; };
 struct HPacket { cif_packet_tp *p = NULL; std::vector<std::pair<MName, MValue>> items; };
 enum ItState { IT_NEW, IT_ITERATED, IT_REMOVED, IT_FINISHED };
@@ -67,6 +68,7 @@ struct ApiRun {
     RunSpec spec; ApiCfg cfg; GenCfg gcfg;
     std::vector<Op> ops;
     int spill_pages = 0; bool no_lookaside = false; EnvSeam env; int dump_every = 0; long mutation_counter = 0;
+    std::vector<Zombie> zombies; void probe_zombies(int cif, const char *when); void free_zombies(int cif);
     std::vector<RCif> cifs; std::vector<HCont> conts; std::vector<HLoop> loops; std::vector<HPacket> packets; std::vector<HIter> iters;
     uint64_t next_uid = 1;
     int cur_op = -1; int cur_kind = 0;
